@@ -146,7 +146,7 @@ func TestC06(t *testing.T) {
 		tornWrites(t, r, dir)
 	}
 	r.Require("calls_with_one_record", "calls_with_no_record", "denied_calls_recorded", "unchanged_conditional_gets", "write_failures_injected", "sync_failures_injected",
-		"mutations_logged_before_effect", "concurrent_lines", "concurrent_durability_checks", "server_level_denials", "audit_file_reopens", "calls_after_a_torn_record")
+		"mutations_logged_before_effect", "concurrent_lines", "concurrent_durability_checks", "server_level_denials", "server_level_entitled_calls", "audit_file_reopens", "calls_after_a_torn_record")
 	r.Rule("sequential: seeded histories of ~30 calls (all 9 operations, callers with random rule sets incl. none, names incl. empty and reserved); per call the records captured between invocation and return are compared with the expectation table; in a third of the histories the sink fails the Write or the Sync of one chosen record. Concurrent: 16 goroutines x mixed calls with unique (user, secret) pairs on a real audit file; every line must parse and the multiset of records must equal the expected one. Distinct = (operation, authorised?, records expected, failure injected)")
 }
 
@@ -571,15 +571,69 @@ func serverLevel(t *testing.T, r *evid.Run, dir string) {
 			ok := false
 			for _, rc := range recs {
 				var e audit.Entry
-				if json.Unmarshal(rc.bytes, &e) == nil && !e.Authorized && string(e.Action) == op.Kind.Action() && e.Secret == op.Name && e.Principal.Hostname == who.Node {
+				if json.Unmarshal(rc.bytes, &e) == nil && !e.Authorized && string(e.Action) == op.Kind.Action() && e.Secret == op.Name && namesCaller(e.Principal, who, addr) {
 					ok = true
 				}
 			}
 			if !ok {
-				r.Violation("denial-not-recorded", -1, fmt.Sprintf("peer %s (%s, rules %+v): %s was refused with 403 but no denial record naming the caller, the action and the secret was written (%d records)", addr, who.Login, who.Rules, op, len(recs)), nil)
+				var got []string
+				for _, rc := range recs {
+					got = append(got, string(rc.bytes))
+				}
+				r.Violation("denial-not-recorded", -1, fmt.Sprintf("peer %s (%s, tags %v, rules %+v): %s was refused with 403 but no denial record naming the caller (for a tagged node: its tags), the action and the secret was written; records: %q", addr, who.Login, who.Tags, who.Rules, op, got), nil)
 			}
 		}
 	}
+	// entitled callers, human and tagged (the tailnet's answer for a tagged node carries a login name as well:
+	// the owner profile "tagged-devices"), through the same front door: each disclosure and change is recorded
+	// under the identity of the caller it was made for
+	all := []refmodel.Rule{{Actions: actions, Patterns: []string{"*"}}}
+	entitled := map[string]httpdrv.Who{
+		"100.64.9.11:1": {Login: "alice@verif", Node: "alice-laptop", Rules: all},
+		"100.64.9.12:1": {Login: "tagged-devices", Node: "ci-runner-1", Tags: []string{"tag:ci"}, Rules: all},
+		"100.64.9.13:1": {Login: "tagged-devices", Node: "prod-web-7", Tags: []string{"tag:prod", "tag:web"}, Rules: all},
+	}
+	for addr, who := range entitled {
+		srv.SetWho(addr, who)
+		for _, op := range []ops.Op{{Kind: ops.Put, Name: "t/" + who.Node, Value: []byte("x")}, {Kind: ops.Get, Name: "t/" + who.Node}, {Kind: ops.Put, Name: "t/" + who.Node, Value: []byte("y")},
+			{Kind: ops.GetVer, Name: "t/" + who.Node, Version: 2}, {Kind: ops.Act, Name: "t/" + who.Node, Version: 2}, {Kind: ops.GetCond, Name: "t/" + who.Node, Version: 1}, {Kind: ops.DelVer, Name: "t/" + who.Node, Version: 1}, {Kind: ops.Delete, Name: "t/" + who.Node}} {
+			r.Eval(1)
+			mk := snk.mark()
+			res, rep, _ := srv.Do(addr, op)
+			recs := snk.since(mk)
+			r.Count("server_level_entitled_calls", 1)
+			r.Distinct("server-level entitled " + string(op.Kind) + fmt.Sprintf(" tagged=%t", len(who.Tags) > 0))
+			if res.Class != refmodel.OK {
+				r.Violation("server-entitled-call-fails", -1, fmt.Sprintf("peer %s (%s, tags %v) %s: status %d", addr, who.Login, who.Tags, op, rep.Status), nil)
+				continue
+			}
+			ok := false
+			var got []string
+			for _, rc := range recs {
+				var e audit.Entry
+				got = append(got, string(rc.bytes))
+				if json.Unmarshal(rc.bytes, &e) == nil && e.Authorized && string(e.Action) == op.Kind.Action() && e.Secret == op.Name && namesCaller(e.Principal, who, addr) {
+					ok = true
+				}
+			}
+			if !ok {
+				r.Violation("record-does-not-name-the-caller", -1, fmt.Sprintf("peer %s (%s, node %s, tags %v): %s succeeded but no record naming this caller (for a tagged node: its tags), the action and the secret was written; records: %q", addr, who.Login, who.Node, who.Tags, op, got), nil)
+			}
+		}
+	}
+}
+
+// namesCaller: the record identifies the caller the way the tailnet does: node name and source IP, plus the
+// login name for a person and the tags for a tagged device.
+func namesCaller(p audit.Principal, who httpdrv.Who, addr string) bool {
+	ap, err := netip.ParseAddrPort(addr)
+	if err != nil || p.IP != ap.Addr() || p.Hostname != who.Node {
+		return false
+	}
+	if len(who.Tags) > 0 {
+		return strings.Join(p.Tags, ",") == strings.Join(who.Tags, ",")
+	}
+	return p.User == who.Login
 }
 
 // auditFileAcrossRestarts: records are APPENDED: after the server is restarted on the same audit file,
